@@ -678,6 +678,9 @@ func (e *Env) Sync(st Step) []Op {
 	return ops
 }
 
+// LastFailed reads instance.lastFailed (hook).
+func (e *Env) LastFailed() bool { return haproxy.VerifLastFailed(e.Inst) }
+
 // Update runs HAProxyUpdate.
 func (e *Env) Update() error {
 	return e.Inst.HAProxyUpdate(e.Timer)
